@@ -16,7 +16,7 @@ import EPV.Tactics
 
 set_option linter.all false
 
-open EPV EPV.Gen EPV.Spec
+open EPV EPV.Gen EPV.Spec Filter Topology
 
 namespace EPV.C01
 
@@ -72,5 +72,54 @@ example : ∃ (p : Cog2.P) (r t : ℝ), 0 < r ∧ 0 < t ∧ 2 + (p.gamma - 1) * 
   ⟨{ Gamma := 40, a_rad := 0, alpha_ := 0, b := 6/5, beta_ := 0, c_light := 0, gamma := 7/5, geometry := 3,
      lam0_ := 0, rho0 := 9/5 }, 1, 1, by norm_num, by norm_num, by norm_num, by norm_num, by norm_num,
     by norm_num, by norm_num⟩
+
+/-! ### The returned fields (tree level)
+
+The only path condition is `t ≤ 0` (NaN fields); where the solver returns numbers the returned
+fields are those of leaf 1, on the whole line {(x, t)} and for all times near t. -/
+
+
+theorem cog2_tree (p : Cog2.P) (r t : ℝ) (h : Cog2.outcome p r t = .ok) :
+    0 < t ∧ AgreeAt (Cog2.density p) (Cog2.L1.density p) r t
+      ∧ AgreeAt (Cog2.velocity p) (Cog2.L1.velocity p) r t
+      ∧ AgreeAt (Cog2.temperature p) (Cog2.L1.temperature p) r t := by
+  have ht : 0 < t := by
+    by_contra hc
+    have hc' : t ≤ 0 := not_lt.mp hc
+    simp [epv_tree, epv_cond, hc'] at h
+  have e : ∀ x s, 0 < s → Cog2.density p x s = Cog2.L1.density p x s
+      ∧ Cog2.velocity p x s = Cog2.L1.velocity p x s
+      ∧ Cog2.temperature p x s = Cog2.L1.temperature p x s := by
+    intro x s hs
+    have hns : ¬ s ≤ 0 := not_le.mpr hs
+    simp only [epv_tree, epv_cond, hns, if_false, and_self]
+  refine ⟨ht, ⟨fun x => (e x t ht).1, ?_⟩, ⟨fun x => (e x t ht).2.1, ?_⟩, ⟨fun x => (e x t ht).2.2, ?_⟩⟩
+  · filter_upwards [Ioi_mem_nhds ht] with s hs using (e r s hs).1
+  · filter_upwards [Ioi_mem_nhds ht] with s hs using (e r s hs).2.1
+  · filter_upwards [Ioi_mem_nhds ht] with s hs using (e r s hs).2.2
+
+/-- mass balance of the returned (tree-level) fields -/
+theorem cog2_mass_tree (p : Cog2.P) (r t : ℝ) (h : Cog2.outcome p r t = .ok) (hr : 0 < r) (hc : 2 + (p.gamma - 1) * ((p.geometry - 1) + 1) ≠ 0) :
+    massRes (Cog2.density p) (Cog2.velocity p) (p.geometry - 1) r t = 0 := by
+  obtain ⟨ht, hρ', hu', hT'⟩ := cog2_tree p r t h
+  rw [massRes_congr hρ' hu']
+  exact cog2_mass p r t hr ht hc
+
+/-- momentum balance of the returned (tree-level) fields -/
+theorem cog2_momentum_tree (p : Cog2.P) (r t : ℝ) (h : Cog2.outcome p r t = .ok) (hr : 0 < r) (hc : 2 + (p.gamma - 1) * ((p.geometry - 1) + 1) ≠ 0) (hΓ : p.Gamma ≠ 0)
+    (hb : p.b + 2 ≠ 0) (hρ : p.rho0 ≠ 0) :
+    momResT (Cog2.density p) (Cog2.velocity p) (Cog2.temperature p) p.Gamma r t = 0 := by
+  obtain ⟨ht, hρ', hu', hT'⟩ := cog2_tree p r t h
+  rw [momResT_congr hρ' hu' hT']
+  exact cog2_momentum p r t hr ht hc hΓ hb hρ
+
+/-- energy balance of the returned (tree-level) fields -/
+theorem cog2_energy_tree (p : Cog2.P) (r t : ℝ) (h : Cog2.outcome p r t = .ok) (hr : 0 < r) (hc : 2 + (p.gamma - 1) * ((p.geometry - 1) + 1) ≠ 0) (hΓ : p.Gamma ≠ 0)
+    (hb : p.b + 2 ≠ 0) (hγ : p.gamma - 1 ≠ 0) (c a α β : ℝ) :
+    energyResT (Cog2.density p) (Cog2.velocity p) (Cog2.temperature p) p.Gamma p.gamma
+      (p.geometry - 1) c a 0 α β r t = 0 := by
+  obtain ⟨ht, hρ', hu', hT'⟩ := cog2_tree p r t h
+  rw [energyResT_congr hρ' hu' hT']
+  exact cog2_energy p r t hr ht hc hΓ hb hγ c a α β
 
 end EPV.C01
